@@ -1,7 +1,7 @@
 (* Correspondence cases for C07: fee calculator vs VM cost per signer shape, the fee boundary, the
    admission decision on transactions valid / invalid in chosen respects, and block packing. *)
 From NG Require Import Common.Tactics Common.HarnessLib.
-From NG Require Export Admission.Fee Admission.Admit Admission.Conflicts Admission.Refresh Admission.RefreshBal Mempool.Model Mempool.Spec.
+From NG Require Export Admission.Fee Admission.Admit Admission.Conflicts Admission.Refresh Admission.RefreshBal Admission.Attrs Mempool.Model Mempool.Spec.
 From NG Require VM.Model Admission.VMScripts.
 From Coq Require String Ascii.
 Open Scope N_scope.
@@ -39,7 +39,11 @@ Inductive case :=
 | CRefreshBal (before : list tx) (blk : list N) (bal' : list (payer * N)) (fpb : N) (after : list N)
     (* the pool before a block (as in CPack), the ids the block took, every payer's GAS balance AFTER the block,
        the fee per byte in force, and the ids GetVerifiedTransactions lists after the block was added *)
-| CFeeValue (base : N) (s : shape) (calc_fee_impl : N).
+| CFeeValue (base : N) (s : shape) (calc_fee_impl : N)
+| CAttrs (height : N) (committee notary oracle reserved : bool) (onchain : list N) (nsigners : nat)
+         (attrs : list attr) (accepted : bool).
+    (* a transaction in order in every other respect, with this attribute list (Conflicts hashes as small numbers,
+       [onchain] = those of them that name a transaction on chain), sent as BYTES: decoded and pooled? *)
     (* fee.Calculate(base, standard verification script of this shape) as a value, at a governed factor *)
     (* GetVerifiedTransactions (ids = positions, signers = account numbers, Conflicts = position of the named
        pooled transaction or a foreign id) with the senders' GAS balances on chain; ApplyPolicyToTxSet kept the
@@ -213,6 +217,10 @@ Definition check_case (c : case) : N :=
       code_of (nlist_eqb (map tid (vtxs s')) after) spec
   | CFeeValue base s calc_fee_impl =>
       let ok := calc_fee base s =? calc_fee_impl in
+      code_of ok ok
+  | CAttrs height committee notary oracle reserved onchain nsigners attrs accepted =>
+      let c := mkActx height committee notary oracle reserved (fun h => existsb (N.eqb h) onchain) nsigners in
+      let ok := Bool.eqb (attrs_ok c attrs) accepted in
       code_of ok ok
   end.
 
